@@ -15,6 +15,7 @@ type C08Case struct {
 	Doc     Doc  `json:"doc"`
 	UseFile bool `json:"use_file"`        // read the -o file instead of stdout
 	Stale   bool `json:"stale,omitempty"` // the -o path already exists and is longer than the new result
+	Huge    bool `json:"huge,omitempty"`  // contains a duration near or beyond what a MIDI delta time can hold: refusing it is fine
 }
 
 func strictSMF(b []byte, wantTracks int) (sig, msg string) {
@@ -67,8 +68,11 @@ func checkC08(c C08Case) *Violation {
 	if res.TimedOut || res.Crashed() {
 		return vio("write-crashed", "timeout=%v stderr=%s%s", res.TimedOut, res.Stderr, ctx)
 	}
+	if res.Exit != 0 && c.Huge {
+		return nil // C08 speaks about successful writes only, and an SMF cannot hold such a duration
+	}
 	if res.Exit != 0 {
-		// C08 speaks about successful writes only; refusals are C09's business
+		// refusals of ordinary documents would leave the check vacuous
 		return vio("write-refused", "exit %d for a document inside the accepted domain: %s%s", res.Exit, res.Stderr, ctx)
 	}
 	b := res.Stdout
@@ -116,7 +120,18 @@ func TestC08(t *testing.T) {
 			j := rapid.IntRange(0, len(d.Insts)-1).Draw(t, "zt-at")
 			d.Insts[j].Values = []Frac{{1, 1921}}
 		}
-		c := C08Case{Doc: d, UseFile: coin(t, "use-file", 30)}
+		huge := false
+		if coin(t, "huge-duration", 12) {
+			// durations near and beyond the largest delta time an SMF can hold (2^28-1 ticks = 279,620 beats)
+			j := rapid.IntRange(0, len(d.Insts)-1).Draw(t, "huge-at")
+			n := rapid.SampledFrom([]int{200000, 279619, 279620, 279621, 300000, 559241, 4473924, 4473925, 5000000, 1 << 40}).Draw(t, "huge-n")
+			d.Insts[j].Values = []Frac{{n, rapid.SampledFrom([]int{1, 1, 2, 3}).Draw(t, "huge-d")}}
+			if coin(t, "two-huge-rests", 30) {
+				d.Insts = append(d.Insts, Inst{Values: []Frac{{150000, 1}}}, Inst{Values: []Frac{{150000, 1}}}, Inst{Chord: &ChordSpec{Deg: IV{1, 2}, Sym: "m"}, Values: []Frac{{1, 1}}})
+			}
+			huge = true
+		}
+		c := C08Case{Doc: d, UseFile: coin(t, "use-file", 30), Huge: huge}
 		c.Stale = c.UseFile && rapid.Bool().Draw(t, "stale-output-file")
 		nt := d.Flags.Track >= 2 || d.Flags.Instrument != nil || d.Flags.Program != nil
 		var classes []string
@@ -140,6 +155,10 @@ func TestC08(t *testing.T) {
 		}
 		if c.Stale {
 			classes = append(classes, "o-file-overwrites-longer-file")
+		}
+		if c.Huge {
+			nt = true
+			classes = append(classes, "duration-near-or-beyond-2^28-ticks")
 		}
 		if d.Flags.Program != nil && *d.Flags.Program > 127 {
 			classes = append(classes, "program>127")
